@@ -7,6 +7,7 @@ pub mod c05;
 pub mod c06;
 pub mod c07;
 pub mod c19;
+pub mod linkfmt;
 #[cfg(feature = "std")]
 pub mod c13;
 
@@ -20,6 +21,9 @@ pub fn dispatch(ctx: &Ctx, rep: &mut Report) -> bool {
         "C06" => c06::run(ctx, rep),
         "C07" => c07::run(ctx, rep),
         "C19" => c19::run(ctx, rep),
+        "C16" => linkfmt::run_c16(ctx, rep),
+        "C17" => linkfmt::run_c17(ctx, rep),
+        "C18" => linkfmt::run_c18(ctx, rep),
         #[cfg(feature = "std")]
         "C13" => c13::run(ctx, rep),
         _ => return false,
